@@ -43,6 +43,34 @@ class Compiled:
         self.page, self.parser_errors, self.lexer_errors, self.exc = page, pe, le, exc
 
 
+# Pages compiled BEFORE a judged page in the same process: the result of compiling a page must not depend on what the
+# process compiled earlier (module- / class-level state, caches). Each primer leaves another kind of state behind.
+PRIMERS = [
+    None,
+    # flat page: tagged, dated title line with a property, notes directly below, no section ever closes
+    "# Primer #parea @pctx %pwho +pprj [[plink]] pk::pv 2019-09-09\n\n- 190909#Pa primed note #na pn::1\no P1 190909#Pb todo +np\n",
+    # ends inside H1>H2>H3>H4, metadata and a date at every level
+    "# Primer\n\n################################ A #h1a h1k::1 2018-01-01\n======================== B @h2c h2k::2 2018-02-02\n++++++++++++++++ C %h3p h3k::3 2018-03-03\n-------- D +h4p h4k::4 [[h4link]] 2018-04-04\n- 180404#Pc deep note\n",
+    # last item: cancelled todo with priority, modify date, ZID, bullet property and tags
+    "# Primer\n\n~ P7 190101 181231#Pd last item #lt @lc [lk:: two words]\n  * bp:: bullet value\n",
+    # a page with a syntax error in the middle of a section
+    "# Primer #perr\n\n################################ S #serr sk::1\n- 180101#Pe fine\nthis line has no prefix\n- 180102#Pf after the error +late\n",
+    # header block with several lines, in-block comment last
+    "# Primer @hc\n# second line #h2nd hk2::x\n\n- 180505#Pg note\n# in-block comment #cmt ck::1 [[clink]]\n",
+]
+
+
+def prime(k: int) -> None:
+    """Compiles primer page k (mod len) with the real compiler; its result is not judged."""
+    t = PRIMERS[k % len(PRIMERS)]
+    if t is not None:
+        compile_text(t, name="primer.zo")
+        COUNTERS_PRIMED[0] += 1
+
+
+COUNTERS_PRIMED = [0]
+
+
 def compile_text(text, name: str = "t.zo", zdir: Path | None = None, verbose: bool = False) -> Compiled:
     """Writes *text* (str or bytes) and compiles it with the real compiler."""
     import zorg.service.compiler._api as api
